@@ -1,12 +1,14 @@
 #!/bin/bash
 # usage: try_seed.sh <patch.diff> <property> [extra vf check args]
-# applies a seeded change to /repo, runs the property's check, and restores /repo.
-patch=$1; prop=$2; shift 2
-cd /repo || exit 9
-if ! git diff --quiet; then echo "/repo not clean"; exit 9; fi
-git apply "$patch" || { echo "patch does not apply"; exit 9; }
-trap 'git -C /repo checkout -- . ' EXIT
-/verif/bin/vf check "$prop" "$@"
+# Runs the property's check against a scratch worktree of /repo with the seeded change applied
+# (VF_REPO), so /repo itself is never touched and several seeds can be tried in parallel.
+patch=$(readlink -f "$1"); prop=$2; shift 2
+id=$(basename $(dirname "$patch"))-$prop-$$
+wt=/tmp/seedrun/$id; mkdir -p /tmp/seedrun
+git -C /repo worktree add --detach "$wt" HEAD >/dev/null 2>&1 || { echo "worktree failed"; exit 9; }
+trap 'git -C /repo worktree remove --force "$wt" >/dev/null 2>&1' EXIT
+( cd "$wt" && git apply "$patch" ) || { echo "patch does not apply"; exit 9; }
+VF_REPO="$wt" /verif/bin/vf check "$prop" "$@"
 rc=$?
 echo "exit=$rc"
 exit $rc
